@@ -1,6 +1,7 @@
 package d2compiler
 
 import (
+	"strconv"
 	"strings"
 
 	"oss.terrastruct.com/d2/d2graph"
@@ -178,4 +179,26 @@ func VerifC06Quoted() {
 	}
 	nd.Assert(found, "the absolute ID written as a program declares the object it names")
 	nd.Assert(len(g2.Objects) == strings.Count(c06Path(g, o), "\x00")+1 && len(g2.Edges) == 0, "the absolute ID written as a program declares nothing else")
+}
+
+// VerifC06Edges: connection IDs stay unique when connections end at columns of
+// tables (the connection is stored at the table, the column is a detail of the
+// end), at nested objects spelled in different ways, and in both directions.
+func VerifC06Edges() {
+	menu := []string{"x -> t.a", "x -> t.b", "t.a -> x", "t.b -> x", "t.a -> t.b", "t.b -> u.c", "x -> u.c", "x -> t", "t -> x", "x -> T.a", "p.q -> t.a", "p: {q -> _.t.b}"}
+	k := nd.Choose("k", 1, nd.Param("KE", 3))
+	text := "t: {shape: sql_table; a: int; b: int}\nu: {shape: sql_table; c: int}\nx\np: {q}\n"
+	for i := 0; i < k; i++ {
+		text += menu[nd.Choose("e"+strconv.Itoa(i), 0, len(menu)-1)] + "\n"
+	}
+	g, _, err := Compile("f.d2", strings.NewReader(text), nil)
+	nd.Assert(err == nil, "the table program compiles")
+	nd.Cover("compiled")
+	nd.Assert(len(g.Edges) == k, "one connection per statement")
+	for i, e := range g.Edges {
+		nd.Cover("edge")
+		for j := 0; j < i; j++ {
+			nd.Assert(g.Edges[j].AbsID() != e.AbsID(), "each connection ID identifies exactly one connection")
+		}
+	}
 }
